@@ -46,10 +46,26 @@ def seeded_table():
     return "\n".join(rows)
 
 
+def evidence_table():
+    rows = ["| property | level | tier of the committed evidence | states | transitions | traces / evaluations | distinct non-trivial | known findings reported | wall s |", "|---|---|---|---|---|---|---|---|---|"]
+    for f in sorted(glob.glob(os.path.join(VERIF, "evidence", "C*.json"))):
+        e = json.load(open(f))
+        c = e["coverage"]
+        rows.append(
+            "| %s | %s | %s | %s | %s | %s | %s | %s | %s |"
+            % (
+                e["property_id"], e["level"], e["tier"], c.get("states", ""), c.get("transitions", ""),
+                c.get("traces_validated_against_impl", c.get("evaluations", "")), c.get("distinct_nontrivial", ""),
+                ", ".join(c.get("known_findings_reported", [])) or "-", e["wall_s"],
+            )
+        )
+    return "\n".join(rows)
+
+
 def main():
     p = os.path.join(VERIF, "DESIGN.md")
     s = open(p).read()
-    for name, fn in (("findings", findings_table), ("seeded", seeded_table)):
+    for name, fn in (("findings", findings_table), ("seeded", seeded_table), ("evidence", evidence_table)):
         b, e = "<!-- BEGIN:%s -->" % name, "<!-- END:%s -->" % name
         if b in s and e in s:
             s = s[: s.index(b) + len(b)] + "\n" + fn() + "\n" + s[s.index(e):]
